@@ -675,6 +675,7 @@ pub fn reader_history(c: &Value) -> Value {
             "get_group_statistics" => format!("{:?}", d.get_group_statistics().map_err(|_| ())),
             "get_contig" => format!("{:?}", d.get_contig(s, cn).is_err()),
             "get_sample" => format!("{:?}", d.get_sample(s).is_err()),
+            "get_reference_segment" => format!("{:?}", d.get_reference_segment(match s { "s0" => 16, "s2" => 3, _ => 9999 }).map_err(|_| ())),
             _ => String::new(),
         }
     };
